@@ -175,6 +175,9 @@ var plans = map[string]*Plan{
 				// snapshots marked as removed
 				js = append(js, jobs("cluster", 1, 1, "bin={BIN},scen=snaplife,merges=0", 20*time.Minute)...)
 			}
+			// rebuilds of a replacement replica (empty directory) interrupted right after the first metadata file
+			// arrived: the directory left behind must open again and the next attempt must succeed
+			js = append(js, jobs("cluster", tierN(tier, 1, 2), tierN(tier, 1, 2), "bin={BIN},cycles=1,interrupt=8", time.Duration(tierN(tier, 20, 60))*time.Minute)...)
 			return js
 		},
 		CrashSig: rengCrash("C12"),
